@@ -51,8 +51,25 @@ func foldObj(obj string) string {
 	case "constant":
 		return "objective:constant"
 	}
+	switch {
+	case strings.HasPrefix(obj, "quadratic*"):
+		return "objective:extreme-scale"
+	case obj == "start=NaN" || obj == "start=+Inf" || obj == "start=-Inf":
+		return "start:non-finite"
+	case strings.HasPrefix(obj, "start="):
+		return "start:extreme-magnitude"
+	case obj == "channel:NaN-entry" || obj == "channel:+Inf-entry":
+		return "channel:non-finite"
+	case strings.HasPrefix(obj, "channel:entries="):
+		return "channel:extreme-magnitude"
+	}
 	return obj
 }
+
+// extreme objective classes (follow-up): the well-behaved quadratic multiplied by a factor whose
+// products underflow / overflow, and start points of extreme magnitude or with a non-finite coordinate
+var extremeObjClasses = []string{"quadratic*1e-200", "quadratic*1e-320", "quadratic*1e+200", "quadratic*1e+308",
+	"start=1e-200", "start=1e+200", "start=1e+308", "start=NaN", "start=+Inf", "start=-Inf"}
 
 // foldOpts keeps the inadmissible option values of a scenario, folded
 // (epsilon=0 and epsilon<0 -> epsilon<=0, ...); admissible values are dropped.
@@ -118,10 +135,34 @@ type objective struct {
 	a, b  float64 // f = a (x0-1)^2 + b (x1+0.5)^2 [+ more coordinates]
 	x0    []float64
 	evals int
+	scale float64 // factor of the objective (1 except for the extreme-scale classes)
 }
 
 func newObjective(r *prng.Rand, class string) *objective {
-	return &objective{class: class, a: r.Uniform(0.5, 2), b: r.Uniform(0.5, 2), x0: []float64{r.Uniform(1.5, 3), r.Uniform(-3, -1.5)}}
+	o := &objective{class: class, a: r.Uniform(0.5, 2), b: r.Uniform(0.5, 2), x0: []float64{r.Uniform(1.5, 3), r.Uniform(-3, -1.5)}, scale: 1}
+	switch class {
+	case "quadratic*1e-200":
+		o.scale = 1e-200
+	case "quadratic*1e-320":
+		o.scale = 1e-320
+	case "quadratic*1e+200":
+		o.scale = 1e200
+	case "quadratic*1e+308":
+		o.scale = 1e308
+	case "start=1e-200":
+		o.x0[0] = 1e-200
+	case "start=1e+200":
+		o.x0[0] = 1e200
+	case "start=1e+308":
+		o.x0[0], o.x0[1] = 1e308, -1e308
+	case "start=NaN":
+		o.x0[1] = math.NaN()
+	case "start=+Inf":
+		o.x0[0] = math.Inf(1)
+	case "start=-Inf":
+		o.x0[1] = math.Inf(-1)
+	}
+	return o
 }
 
 func (o *objective) atStart(x ad.ConstVector) bool {
@@ -146,6 +187,9 @@ func (o *objective) scalar(x ad.ConstVector) (ad.MagicScalar, error) {
 	t.Mul(t, t)
 	t.Mul(t, ad.ConstFloat64(o.b))
 	y.Add(y, t)
+	if o.scale != 1 {
+		y.Mul(y, ad.ConstFloat64(o.scale))
+	}
 	switch o.class {
 	case "nan":
 		y.Mul(y, ad.ConstFloat64(math.NaN()))
@@ -173,6 +217,9 @@ func (o *objective) gradient(x, g ad.DenseFloat64Vector) error {
 	o.evals++
 	g[0] = 2 * o.a * (x[0] - 1)
 	g[1] = 2 * o.b * (x[1] + 0.5)
+	if o.scale != 1 {
+		g[0], g[1] = g[0]*o.scale, g[1]*o.scale
+	}
 	switch o.class {
 	case "nan":
 		g[0], g[1] = math.NaN(), math.NaN()
@@ -205,6 +252,9 @@ func (o *objective) vector(x ad.ConstVector) (ad.MagicVector, error) {
 	mul := func(c float64) {
 		y.AT(0).Mul(y.AT(0), ad.ConstFloat64(c))
 		y.AT(1).Mul(y.AT(1), ad.ConstFloat64(c))
+	}
+	if o.scale != 1 {
+		mul(o.scale)
 	}
 	switch o.class {
 	case "nan":
@@ -402,6 +452,10 @@ func optScenarios() []scenario {
 				o.evals++
 				e := Z[i][0]*x[0] + Z[i][1]*x[1] - Y[i]
 				g := []float64{e * Z[i][0], e * Z[i][1]}
+				if o.scale != 1 {
+					e *= math.Sqrt(o.scale)
+					g[0], g[1] = g[0]*o.scale, g[1]*o.scale
+				}
 				switch o.class {
 				case "nan":
 					g[0], g[1] = math.NaN(), math.NaN()
@@ -492,6 +546,29 @@ func optScenarios() []scenario {
 		}},
 		scenario{"saga.Run", "epsilon=0/capped(50)", "quadratic", sg(saga.Gamma{Value: 0.1}, saga.Epsilon{Value: 0}, saga.MaxIterations{Value: 50})},
 	)
+	// extreme magnitudes and non-finite start points (follow-up; appended last): every routine with
+	// each of its admissible option routes, on the quadratic scaled by 1e-200 .. 1e+308 and from start
+	// points with a coordinate of 1e-200 / 1e+200 / 1e+308 / NaN / +-Inf
+	base := len(l)
+	for _, s := range l[:base] {
+		if s.Obj != "quadratic" || foldOpts(s.Opts) != "admissible-options" || strings.Contains(s.Opts, "/capped") {
+			continue
+		}
+		for _, cl := range extremeObjClasses {
+			l = append(l, scenario{s.Routine, s.Opts, cl, s.Call})
+		}
+	}
+	for _, naive := range []bool{false, true} {
+		name := "blahut.Run"
+		if naive {
+			name = "blahut.RunNaive"
+		}
+		l = append(l, scenario{name, "steps=50", "channel:entries=1e-200", bl(naive, [][]float64{{1e-200, 3e-200}, {2e-200, 1e-200}}, 50)})
+		l = append(l, scenario{name, "steps=50", "channel:entries=subnormal", bl(naive, [][]float64{{5e-324, 1e-320}, {1e-320, 5e-324}}, 50)})
+		l = append(l, scenario{name, "steps=50", "channel:entries=1e+200", bl(naive, [][]float64{{1e200, 3e200}, {2e200, 1e200}}, 50)})
+		l = append(l, scenario{name, "steps=50", "channel:entries=mixed(1,1e-300)", bl(naive, [][]float64{{1, 1e-300}, {1e-300, 1}}, 50)})
+		l = append(l, scenario{name, "steps=50", "channel:+Inf-entry", bl(naive, [][]float64{{math.Inf(1), 1}, {0.5, 0.5}}, 50)})
+	}
 	return l
 }
 
